@@ -7,9 +7,9 @@ import tempfile
 
 import z3
 
-OBL_TIMEOUT_MS = int(os.environ.get("PYVC_OBL_TIMEOUT_MS", "20000"))
+OBL_TIMEOUT_MS = int(os.environ.get("PYVC_OBL_TIMEOUT_MS", "90000"))
 CVC5_TIMEOUT_S = int(os.environ.get("PYVC_CVC5_TIMEOUT_S", "60"))
-FIRST_TIMEOUT_MS = int(os.environ.get("PYVC_FIRST_TIMEOUT_MS", "3000"))
+FIRST_TIMEOUT_MS = int(os.environ.get("PYVC_FIRST_TIMEOUT_MS", "5000"))
 STATS = {"z3": 0, "cvc5": 0, "z3_time": 0.0, "cvc5_time": 0.0, "unknown": 0}
 
 
